@@ -203,3 +203,232 @@ def variants(world, tier="quick", only=None):
     if only:
         out = [v for v in out if any(o in v.name for o in only)]
     return out
+
+
+# ---------------------------------------------------------------------------
+# Ackermannization: the consistency implication of two applications, and walk_function
+# ---------------------------------------------------------------------------
+uffree = z3.Function("uffree", Node, B)          # no uninterpreted-function application inside
+NodeArr = z3.ArraySort(Node, Node)
+NodeSetS = z3.SetSort(Node)
+
+
+def ack_map(ex, W, name="terms_dict"):
+    """_terms_dict in an arbitrary state: a map from applications to their constants (symbols of the application's type,
+    free of applications) - the representation invariant of the Ackermannizer; instantiated per looked-up key"""
+    from pyvc.symex import NodeMap
+    return NodeMap(z3.Const(name + "_values", NodeArr), z3.Const(name + "_keys", NodeSetS))
+
+
+def ack_entry_facts(ex, W, m, app):
+    """invariant of one entry (assumed for the entries a call reads, proved for the entries it writes)"""
+    c = z3.Select(m.arr, app)
+    W.touch(ex, c)
+    return [S.op(c) == S.SYMBOL, S.type_of(c) == S.type_of(app), uffree(c)]
+
+
+class AckImplicationVariant(Variant):
+    """Ackermannizer._generate_implication(option1, option2, f) with k arguments per application; bit i of pat1 / pat2 says
+    that argument i of the first / second application is itself an application (replaced by its constant through
+    _terms_dict).  Post-conditions, for ANY values of the introduced constants:
+      * the result is true exactly when  (all argument pairs equal, constants standing for applications)  implies
+        (the constants of the two applications are equal)           -- the functional-consistency instance, no weaker
+      * no function application is left in it                       -- the advertised form"""
+    prop_ids = ("C11",)
+    bounded = "arity"
+
+    def __init__(self, world, k, pat1, pat2):
+        self.world, self.k, self.pat1, self.pat2 = world, k, pat1, pat2
+        self.qualname = "pysmt.rewritings.Ackermannizer._generate_implication"
+        self.name = "ackermann:implication[%d args/%s,%s]" % (k, format(pat1, "0%db" % k), format(pat2, "0%db" % k))
+        self.max_arity = 3
+
+    def setup(self, ex):
+        from pyvc import spec
+        W = self.world
+        env = core.make_env(ex, W)
+        mgr = env.fields["_formula_manager"]
+        k = self.k
+        f = z3.Const("function_symbol", Node)
+        W.touch(ex, f)
+        ex.assume(S.op(f) == S.SYMBOL)
+        W.learn(ex, f, op=S.SYMBOL, k=0)
+        ex.assume(S.Ty.is_FunT(S.pl_ty(f)))
+        ex.assume(spec.valid_type(S.pl_ty(f)))
+        fidx = S.Ty.fid(S.pl_ty(f))
+        ex.assume(S.fun_arity(fidx) == k)
+        # a function type: valid first-order parameter and return sorts
+        for t in [S.fun_ret(fidx)] + [S.fun_param(fidx, S.K(i)) for i in range(k)]:
+            ex.assume(z3.And(spec.valid_type(t), z3.Not(S.Ty.is_FunT(t))))
+        self.m = ack_map(ex, W)
+        self.repl = {}
+
+        def arg(side, i, is_app):
+            t = z3.Const("arg%d_%d" % (side, i), Node)
+            W.touch(ex, t)
+            ex.assume(S.type_of(t) == S.fun_param(fidx, S.K(i)))
+            if is_app:
+                ex.assume(S.op(t) == S.FUNCTION)
+                ex.assume(z3.IsMember(t, self.m.dom))       # every application met by the walk has its constant
+                for fct in ack_entry_facts(ex, W, self.m, t):
+                    ex.assume(fct)
+                self.repl[t.get_id()] = z3.Select(self.m.arr, t)
+            else:
+                ex.assume(S.op(t) != S.FUNCTION)
+                ex.assume(uffree(t))          # (the arguments are results of the walk: free of applications unless they are one)
+            return t
+        self.o1 = [arg(1, i, self.pat1 >> i & 1) for i in range(k)]
+        self.o2 = [arg(2, i, self.pat2 >> i & 1) for i in range(k)]
+        fn = W.getattr(ex, mgr, "Function")
+        self.app1 = ex.call(fn, [f, tuple(self.o1)], {})
+        self.app2 = ex.call(fn, [f, tuple(self.o2)], {})
+        for app in (self.app1, self.app2):
+            ex.assume(z3.IsMember(app, self.m.dom))
+            for fct in ack_entry_facts(ex, W, self.m, app):
+                ex.assume(fct)
+        self.c1, self.c2 = z3.Select(self.m.arr, self.app1), z3.Select(self.m.arr, self.app2)
+        self.w = Obj("pysmt.rewritings.Ackermannizer", {"env": env, "mgr": mgr, "_terms_dict": self.m, "_funs_to_args": DictVal()},
+                     tag="ackermannizer")
+        fi = W.repo.func(self.qualname)
+        return W.wrap_func(fi, fi.module, bound=self.w), [tuple(self.o1), tuple(self.o2), f], {}
+
+    def check(self, ex, outcome):
+        kind, r = outcome
+        if kind == "raise":
+            return [("no-exception", z3.BoolVal(False))]
+        if not is_node(r):
+            return [("returns-node", z3.BoolVal(False))]
+        W = self.world
+        W.touch(ex, r)
+        sub = lambda t: self.repl.get(t.get_id(), t)
+        eqs = [S.val(sub(a)) == S.val(sub(b)) for a, b in zip(self.o1, self.o2)]
+        want = z3.Implies(z3.And(eqs), S.val(self.c1) == S.val(self.c2))
+        shape_uffree(ex)
+        return [("is-the-consistency-instance-over-the-constants", S.val(r) == S.VBool(want)),
+                ("no-function-application-left", uffree(r))]
+
+
+class AckWalkFunctionVariant(Variant):
+    """Ackermannizer.walk_function on an application f(x1..xk) with _terms_dict in an arbitrary state satisfying its
+    invariant: returns the constant of the application - the stored one, or a fresh symbol of the application's type that is
+    then stored; every other entry is unchanged; the argument list is recorded under the function symbol."""
+    prop_ids = ("C11",)
+    bounded = "arity"
+
+    def __init__(self, world, k, known, recorded):
+        self.world, self.k, self.known, self.recorded = world, k, known, recorded
+        self.qualname = "pysmt.rewritings.Ackermannizer.walk_function"
+        self.name = "ackermann:walk_function[%d args/%s/%s]" % (k, "known" if known else "new",
+                                                              ("function-seen" if recorded else "function-new"))
+        self.max_arity = 3
+
+    def setup(self, ex):
+        from pyvc import spec
+        W = self.world
+        env = core.make_env(ex, W)
+        mgr = env.fields["_formula_manager"]
+        c = FreshSymbol()
+        c.world = W
+        W.contracts[c.qualname] = c
+        k = self.k
+        app = z3.Const("application", Node)
+        W.touch(ex, app)
+        ex.assume(S.op(app) == S.FUNCTION)
+        W.learn(ex, app, op=S.FUNCTION, k=k)
+        self.app = app
+        f = S.pl_node(app)
+        fidx = S.Ty.fid(S.pl_ty(f))
+        ex.assume(z3.And(spec.valid_type(S.fun_ret(fidx)), z3.Not(S.Ty.is_FunT(S.fun_ret(fidx)))))
+        self.m = ack_map(ex, W)
+        self.arr0, self.dom0 = self.m.arr, self.m.dom
+        if self.known:
+            ex.assume(z3.IsMember(app, self.m.dom))
+            for fct in ack_entry_facts(ex, W, self.m, app):
+                ex.assume(fct)
+        else:
+            ex.assume(z3.Not(z3.IsMember(app, self.m.dom)))
+        self.other_args = (z3.Const("earlier_argument_list_item", Node),) * 1 if k == 1 else tuple(z3.Const("earlier_arg%d" % i, Node) for i in range(k))
+        self.f2a = DictVal([[f, SetVal([tuple(self.other_args)])]] if self.recorded else [])
+        self.w = Obj("pysmt.rewritings.Ackermannizer", {"env": env, "mgr": mgr, "_terms_dict": self.m, "_funs_to_args": self.f2a},
+                     tag="ackermannizer")
+        fi = W.repo.func(self.qualname)
+        return W.wrap_func(fi, fi.module, bound=self.w), [app], {"args": [z3.Const("rewritten_arg%d" % i, Node) for i in range(k)]}
+
+    def check(self, ex, outcome):
+        kind, r = outcome
+        if kind == "raise":
+            return [("no-exception", z3.BoolVal(False))]
+        if not is_node(r):
+            return [("returns-node", z3.BoolVal(False))]
+        W = self.world
+        W.touch(ex, r)
+        app, m = self.app, self.m
+        other = z3.Const("any_other_application", Node)
+        goals = [("application-has-its-constant", z3.And(z3.IsMember(app, m.dom), z3.Select(m.arr, app) == r)),
+                 ("constant-is-a-symbol-of-the-application's-type", z3.And(S.op(r) == S.SYMBOL, S.type_of(r) == S.type_of(app))),
+                 ("other-entries-unchanged", z3.Implies(other != app, z3.And(z3.IsMember(other, m.dom) == z3.IsMember(other, self.dom0),
+                                                                             z3.Select(m.arr, other) == z3.Select(self.arr0, other))))]
+        if self.known:
+            goals.append(("stored-constant-returned", r == z3.Select(self.arr0, app)))
+        else:
+            fresh = ex.ghost.get("fresh_symbols", [])
+            goals.append(("new-constant-is-fresh", z3.BoolVal(len(fresh) == 1) if len(fresh) != 1 else r == fresh[0]))
+        # the argument list is recorded under the function symbol (needed for the consistency implications)
+        f = S.pl_node(app)
+        items = self.f2a.items
+        rec = None
+        for kk, vv in items:
+            c = BI._eq(W, ex, kk, f)
+            if (c is True) or (is_z3(c) and ex.decide(c)):
+                rec = vv
+                break
+        if self.known:
+            return goals        # (an application that has its constant was recorded when the constant was made)
+        if not isinstance(rec, SetVal):
+            goals.append(("argument-list-recorded", z3.BoolVal(False)))
+        else:
+            want = [S.arg(app, S.K(i)) for i in range(self.k)]
+            hit = []
+            for it in rec.items:
+                its = BI.iterate(W, ex, it)
+                if len(its) == self.k:
+                    hit.append(z3.And([a == b for a, b in zip(its, want)]))
+            goals.append(("argument-list-recorded", z3.Or(hit) if hit else z3.BoolVal(False)))
+            if self.recorded:
+                kept = []
+                for it in rec.items:
+                    its = BI.iterate(W, ex, it)
+                    if len(its) == len(self.other_args):
+                        kept.append(z3.And([a == b for a, b in zip(its, self.other_args)]))
+                goals.append(("earlier-argument-lists-kept", z3.Or(kept) if kept else z3.BoolVal(False)))
+        return goals
+
+
+def shape_uffree(ex):
+    for info in list(ex.ghost.get("nodeinfo", {}).values()):
+        t, Kop, k = info["t"], info["op"], info["k"]
+        if Kop is None or k is None:
+            continue
+        if Kop == S.FUNCTION:
+            ex.assume(uffree(t) == False)
+        elif Kop in (S.AND, S.OR, S.NOT, S.IMPLIES, S.IFF, S.EQUALS):
+            ex.assume(uffree(t) == z3.And([uffree(S.arg(t, S.K(i))) for i in range(k)]))
+
+
+_base_variants11 = variants
+
+
+def variants(world, tier="quick", only=None):
+    out = _base_variants11(world, tier, None)
+    for k, pats in ((1, ((0, 0), (1, 0), (0, 1), (1, 1))), (2, ((0, 0), (1, 1), (3, 0), (2, 2), (3, 3), (1, 2)))):
+        for p1, p2 in pats:
+            out.append(AckImplicationVariant(world, k, p1, p2))
+    for k in (1, 2):
+        for known in (False, True):
+            for recorded in (False, True):
+                if known and not recorded:
+                    continue
+                out.append(AckWalkFunctionVariant(world, k, known, recorded))
+    if only:
+        out = [v for v in out if any(o in v.name for o in only)]
+    return out
